@@ -525,11 +525,15 @@ def run_batch(text, name, beh, lines, wordbreaks, timeout=300):
     (compile result, per-line records [{invocations: [(k, argc, args...)], rc, reply: [...]}])."""
     d = tempfile.mkdtemp(prefix="vbash-", dir=proc.scratch_root())
     try:
-        with open(os.path.join(d, "g.usage"), "w") as f:
-            f.write(text)
-        r = subprocess.run([build.COMPLGEN, "--bash", "g.bash", "g.usage"], cwd=d, capture_output=True, text=True, env={"LC_ALL": "C"}, timeout=60)
-        if r.returncode != 0:
-            return {"exit": r.returncode, "stderr": r.stderr}, None
+        # the compile runs under the shim with canonical seams (zero random bytes, fixed clock/pid): whether the emitted script
+        # depends on ambient state is C10's question; here one grammar must always mean one script, so that every finding replays
+        cres = proc.run_case({"binary": "complgen", "argv": ["--bash", "g.bash", "g.usage"], "files": {"g.usage": text.encode("utf-8").decode("latin-1")},
+                              "stdin": None, "stdout": "pipe", "roles": {"input": "g.usage", "dest": "g.bash"},
+                              "plan": ["rand 0", "time 0", "pid 4242", "host canonical"], "env": {"LC_ALL": "C"}, "watch": ["g.bash"]}, timeout=60)
+        if cres["exit"] != 0 or cres["files_after"].get("g.bash") is None:
+            return {"exit": cres["exit"], "stderr": cres["stderr"]}, None
+        with open(os.path.join(d, "g.bash"), "wb") as f:
+            f.write(proc.dec(cres["files_after"]["g.bash"]))
         os.mkdir(os.path.join(d, "beh"))
         for k, b in beh.items():
             with open(os.path.join(d, "beh", "%s.out" % k), "w") as f:
